@@ -17,7 +17,7 @@ changes); join(t) measured against t; after a join that saw the exit the
 process must be gone from active_children() *and* from the internal
 `_children` set; /proc tells when the child has provably ended (zombie or
 gone) before the first probe; start() a second time, or from another process
-(os.fork and a billiard child receiving the object), must be refused."""
+(os.fork and a billiard child receiving the object), must be refused.  sys.exit(n) also with n an IntEnum member, an instance of an int subclass, a bool."""
 import os
 import select
 import signal
